@@ -88,7 +88,7 @@ let dump (c : cstate) : string =
          | DText t -> Buffer.add_string b ("x:" ^ hex_of_bytes t)
          | DCdata -> Buffer.add_string b "c:-"
          | DPi -> Buffer.add_string b "p:-"
-         | DTree l -> Buffer.add_string b (Printf.sprintf "r:%d" (int_of_n l)));
+         | DTree (l, tr) -> Buffer.add_string b (Printf.sprintf "r:%d" (match tr with Some _ -> int_of_n l | None -> -1)));
         Buffer.add_char b ':'; putref ord b nd.n_parent;
         Buffer.add_char b ':'; putref ord b nd.n_children;
         Buffer.add_char b ':'; putref ord b nd.n_prev;
@@ -107,6 +107,7 @@ let run_seq langid ops_s =
     let out = Buffer.create 1024 in
     let first = ref true in
     let stuck = ref false in
+    let ntrees = ref 0 in
     let ops = if ops_s = "" then [] else String.split_on_char ';' ops_s in
     (try List.iter (fun o ->
       let f = String.split_on_char ',' o in
@@ -135,7 +136,13 @@ let run_seq langid ops_s =
           Some (OpAddElt (ref_ p, tag_of k, go av))
         | ["T"; p; tx] -> Some (OpAddText (ref_ p, bytes_of_hex tx))
         | ["C"; p] -> Some (OpAddCdata (ref_ p))
-        | ["R"; p; lg; _; _] -> Some (OpAddTree (ref_ p, n_of_int (int_of_string lg)))
+        | ["R"; p; lg; _; _] -> incr ntrees; Some (OpAddTree (ref_ p, n_of_int (int_of_string lg), n_of_int !ntrees))
+        | ["ZG"; _; k] -> Some (OpAddNull (DElt (tag_of k, [])))
+        | "ZH" :: _ :: k :: _ -> Some (OpAddNull (DElt (tag_of k, [])))
+        | ["ZL"; _; nm] -> Some (OpAddNull (DElt (TagLit (bytes_of_hex nm), [])))
+        | ["ZT"; _; tx] -> Some (OpAddNull (DText (bytes_of_hex tx)))
+        | ["ZC"; _] -> Some (OpAddNull DCdata)
+        | ["ZR"; _; _; _; _] -> incr ntrees; Some (OpAddNull (DTree (n_of_int 0, None)))
         | ["B"; i; k; v] -> Some (OpAddAttr (some_ref i, bytes_of_hex k, bytes_of_hex v))
         | ["X"; i] -> Some (OpExtract (some_ref i))
         | ["I"; p; j] -> Some (OpReAdd (ref_ p, some_ref j))
